@@ -15,7 +15,12 @@ import os
 import re
 import subprocess
 
+import sys
+
 from . import common, oracle, progrun
+
+sys.path.insert(0, common.VERIF)
+from gen import c01frag  # noqa: E402
 
 
 def alpha(text):
@@ -28,6 +33,180 @@ def alpha(text):
             names[k] = "%s%d" % (k[0], len(names))
         return names[k]
     return re.sub(r"[%@][A-Za-z_.0-9]+", sub, text)
+
+
+
+# ----------------------------------------------------------------------------- fragment F1
+OPS = set("cast neg cond mul div mod add sub shl shr and or xor lt gt le ge eq ne lor land".split())
+
+
+def _drv01(ck, args, text, timeout=600):
+    r = subprocess.run([ck.drv_path()] + args, input=text, stdout=subprocess.PIPE, stderr=subprocess.PIPE,
+                       text=True, timeout=timeout)
+    if r.returncode != 0:
+        raise common.Broken("drv_c01 %s failed rc=%d: %s" % (args, r.returncode, r.stderr[-500:]))
+    return r.stdout
+
+
+def _frag_program(funcs, calls):
+    """C text: the functions + a main that prints f(args) for every (index, args) of `calls`"""
+    body = ["void out(long);"] + [f[0] for f in funcs] + ["int main(void) {"]
+    for i, a in calls:
+        ptys = funcs[i][1].split("(")[2].split(")")[0].split()
+        lits = []
+        for t, v in zip(ptys, a):
+            suf = {"l": "L", "ll": "LL", "ul": "UL", "ull": "ULL", "u": "U"}.get(t, "")
+            if v < 0:       # INT_MIN-style values as (-MAX - 1)
+                lits.append("(%s)(-%d%s - 1)" % (c01frag.CNAME[t], -(v + 1), "LL" if not suf else suf.replace("U", "")))
+            else:
+                lits.append("(%s)%d%s" % (c01frag.CNAME[t], v, suf or ("ULL" if v >= 2 ** 63 else "LL" if v >= 2 ** 31 else "")))
+        body.append("\tout((long)%s(%s));" % (funcs[i][2], ", ".join(lits)))
+    body += ["\treturn 0;", "}"]
+    return "\n".join(body) + "\n"
+
+
+def _native_calls(prog, wd, cs):
+    """value printed by every call of main under gcc and clang (UBSan in recover mode); None for a call during
+    which the sanitizer reported something, or on which the two compilers disagree"""
+    src = os.path.join(wd, "native.c")
+    lines = prog.replace("void out(long);", "#include <stdio.h>\nstatic void out(long v) { printf(\"out %lu\\n\", (unsigned long)v); fflush(stdout); }")
+    q = [0]
+
+    def mark(m):
+        q[0] += 1
+        return "\tfprintf(stderr, \"@%d\\n\");%s" % (q[0] - 1, m.group(0))
+    lines = re.sub(r"\tout\(\(long\)", mark, lines)
+    open(src, "w").write(lines)
+    res = []
+    for comp in ("gcc", "clang"):
+        exe = os.path.join(wd, "n_" + comp)
+        r = subprocess.run([comp, "-std=gnu11", "-w", "-O0", "-fsanitize=undefined", "-fsigned-char" if cs else "-funsigned-char",
+                            "-o", exe, src], stdout=subprocess.PIPE, stderr=subprocess.STDOUT, text=True)
+        if r.returncode != 0:
+            raise common.Broken("native build of fragment program failed: " + r.stdout[-500:])
+        p = subprocess.run([exe], stdout=subprocess.PIPE, stderr=subprocess.PIPE, text=True, timeout=120)
+        vals = p.stdout.splitlines()
+        bad, cur = set(), None
+        for ln in p.stderr.splitlines():
+            if ln.startswith("@"):
+                cur = int(ln[1:])
+            elif "runtime error" in ln and cur is not None:
+                bad.add(cur)
+        if p.returncode != 0 or len(vals) != q[0]:
+            raise common.Broken("native fragment program failed rc=%d: %s" % (p.returncode, p.stderr[-300:]))
+        res.append([None if i in bad else v for i, v in enumerate(vals)])
+    return [a if a == b else None for a, b in zip(*res)]
+
+
+def run_fragment(ck, cc, d):
+    """Tie of the theorem `lower_correct` to this compiler.  For generated functions of fragment F1
+    (gen/c01frag.py: typed tree as expr.c builds it):
+      (1) the text `Lower.emitFunc` gives for the tree is byte-identical to what cproc-qbe emits;
+      (2) `CSem.evalC` agrees with gcc and clang (UBSan-clean) on sample arguments - validates the C semantics
+          the theorem is stated against (a disagreement marks the check broken, never a violation);
+      (3) the IL cproc-qbe really emitted, run under Spec/Qbe, returns evalC's value (the property itself).
+    A text difference with (3) intact is reported as `no-failing-input-found` naming the theorem."""
+    n = 240 if ck.quick else 2500
+    st = {"functions": 0, "text-identical": 0, "calls-defined": 0, "calls-ub-skipped": 0, "il-runs": 0, "native-runs": 0}
+    ophist = {}
+    for k, (targ, cs) in enumerate(progrun.TARGETS):
+        funcs = c01frag.gen(ck.seed * 1009 + k, cs, n, prefix="f%d_" % k)
+        st["functions"] += len(funcs)
+        for f in funcs:
+            for op in re.findall(r"\((\w+) ", f[1]):
+                if op in OPS:
+                    ophist[op] = ophist.get(op, 0) + 1
+        src = os.path.join(d, "frag%d.c" % k)
+        open(src, "w").write("\n".join(f[0] for f in funcs) + "\n")
+        r = subprocess.run([cc, "-t", targ, src], stdout=subprocess.PIPE, stderr=subprocess.PIPE, text=True)
+        real = c01frag.split_funcs(r.stdout)
+        if r.returncode != 0:
+            bad = funcs[min(len(real), len(funcs) - 1)]
+            g = subprocess.run(["gcc", "-std=c11", "-w", "-fsyntax-only", "-x", "c", "-"], input=bad[0] + "\n",
+                               stdout=subprocess.PIPE, stderr=subprocess.STDOUT, text=True)
+            if g.returncode == 0:
+                ck.violation({"kind": "valid-function-rejected", "program": bad[0], "target": targ, "status": r.returncode,
+                              "stderr": r.stderr[-600:], "what": "a valid function of fragment F1 is rejected (or the compiler crashed)"})
+                return st, ophist
+            raise common.Broken("gen/c01frag.py produced a function gcc rejects too: %s" % bad[0])
+        model = _drv01(ck, ["--cs", "1" if cs else "0", "emit"], "\n".join(f[1] for f in funcs) + "\n").split("--\n")
+        differ = [i for i in range(len(funcs)) if i >= len(real) or real[i] != model[i]]
+        st["text-identical"] += len(funcs) - len(differ)
+        # sample arguments on which the C semantics is defined
+        lines = ["%s | %s" % (f[1], " ".join(map(str, a))) for f in funcs for a in f[3]]
+        ev = _drv01(ck, ["--cs", "1" if cs else "0", "eval"], "\n".join(lines) + "\n").splitlines()
+        calls, want = [], []
+        j = 0
+        for i, f in enumerate(funcs):
+            for a in f[3]:
+                m = re.match(r"(wt=0 )?(wf=0 )?c=(\S+) il=(.*)$", ev[j])
+                j += 1
+                if not m or m.group(1):
+                    raise common.Broken("drv_c01 eval: generated function is ill-typed for the model: %s -> %s" % (f[1], ev[j - 1]))
+                if m.group(2):
+                    ck.violation({"kind": "model-output-not-wf", "function": f[0], "theorem": "CprocVerif.C01.emit_wf_full",
+                                  "what": "Lower.emitFunc output fails the IL validator"}, nofail=True)
+                    return st, ophist
+                if m.group(3) == "ub":
+                    st["calls-ub-skipped"] += 1
+                    continue
+                c = int(m.group(3))
+                il = m.group(4)
+                if not (il.startswith("ret ") and c01frag.ret_matches(c01frag.ret_type_of(f[1]), c, il.split()[1])):
+                    raise common.Broken("theorem instance fails in the driver (model/driver out of sync): %s %s -> %s" % (f[1], a, ev[j - 1]))
+                calls.append((i, a))
+                rt = c01frag.ret_type_of(f[1])
+                v = c % (1 << (8 * c01frag.SIZE[rt]))
+                if c01frag.signed(rt) if rt != "c" else cs:
+                    if v >> (8 * c01frag.SIZE[rt] - 1):
+                        v -= 1 << (8 * c01frag.SIZE[rt])
+                want.append("out %d" % (v % (1 << 64)))
+        st["calls-defined"] += len(calls)
+        prog = _frag_program(funcs, calls)
+        pp = os.path.join(d, "fragmain%d.c" % k)
+        open(pp, "w").write(prog)
+        wd = os.path.join(d, "fragw%d" % k)
+        os.makedirs(wd)
+        nat = _native_calls(prog, wd, cs)
+        st["native-runs"] += len(calls)
+        for q, (i, a) in enumerate(calls):
+            if nat[q] is None:
+                # undefined at the source level although the tree's value is defined: the undefined operation sits
+                # in a constant subexpression that expr.c folded away (e.g. `1L << 65535` inside a ?: condition)
+                st["native-ub-folded-away"] = st.get("native-ub-folded-away", 0) + 1
+            elif nat[q] != want[q]:
+                raise common.Broken("CSem.evalC disagrees with gcc/clang on %s%s: native %s, evalC %s" % (
+                    funcs[i][0], a, nat[q], want[q]))
+        if sum(1 for x in nat if x is None) > 0.2 * len(nat) + 5:
+            raise common.Broken("too many calls undefined natively but defined for CSem.evalC")
+        rc, err = progrun.compile_c(cc, targ, pp, pp + ".ssa")
+        if rc != 0:
+            ck.violation({"kind": "valid-program-rejected", "program": prog[-3000:], "target": targ, "stderr": err[-600:]})
+            return st, ophist
+        il = oracle.il_trace(progrun.drv03(), pp + ".ssa", fuel=200000000, timeout=600)
+        st["il-runs"] += len(calls)
+        for q, (i, a) in enumerate(calls):
+            ck.count(("frag", targ, i, q))
+        if il[:-1] != want or il[-1] != "ret 0":
+            q = common.diff_lines(il[:-1], want)
+            if q is None or q >= len(calls):
+                q = len(calls) - 1
+            i, a = calls[q]
+            single = _frag_program([funcs[i]], [(0, a)])
+            ck.violation({"kind": "fragment-behaviour-differs", "program": single, "target": targ,
+                          "expected (C semantics, = gcc = clang)": want[q], "il_semantics": il[q] if q < len(il) else il[-1:],
+                          "what": "the IL emitted for a pure integer expression function returns a value other than the one C prescribes"})
+            return st, ophist
+        if differ:
+            i = differ[0]
+            ck.violation({"kind": "lowering-model-differs", "theorem": "CprocVerif.C01.lower_correct (tie: Lower.emitFunc = qbe.c funcexpr)",
+                          "function": funcs[i][0], "tree": funcs[i][1], "target": targ,
+                          "cproc": real[i] if i < len(real) else None, "model": model[i],
+                          "functions_differing": len(differ),
+                          "what": "cproc-qbe's text for a fragment function is no longer what the proved lowering model emits; "
+                                  "its executed behaviour on the sample arguments is still right"}, nofail=True)
+            return st, ophist
+    return st, ophist
 
 
 def run(ck):
@@ -55,6 +234,13 @@ def run(ck):
         ck.report({"kind": "known-witness", "program": wsrc, "il_semantics": il}, fid="bitfield-unit-overlap-descriptor")
     else:
         ck.notes.append("model stale: witness of bitfield-unit-overlap-descriptor now behaves correctly")
+    fst, fops = ({}, {})
+    if have_proofs and ck.drv_ok:
+        fst, fops = run_fragment(ck, cc, d)
+    ck.cov["fragment_F1"] = fst
+    ck.cov["fragment_F1_operator_histogram"] = dict(sorted(fops.items(), key=lambda kv: -kv[1]))
+    if ck.violations:
+        return
     n = 90 if ck.quick else 2400
     stats = {"programs": 0, "dropped-undefined": 0, "compared": 0, "trace-items": 0, "drop-reasons": {}}
     feats = {}
@@ -133,10 +319,30 @@ def run(ck):
 
 
 META = {
-    "disabled": True,
-    "category": "translation_validation",
-    "text": "",
-    "design_ref": "DESIGN.md section 4, C01",
-    "note": "",
-    "technique": "",
+    "category": "proof",
+    "text": ("Semantic preservation is PROVED in Lean for fragment F1 of the language - functions `T f(params) { return E; }` over "
+             "all 12 integer types with every arithmetic, bitwise, shift, comparison, logical (short-circuit), conditional, cast "
+             "and unary-minus operator, any nesting depth, any number of parameters (Props/C01.lean: lower_correct, "
+             "lower_correct_in, lower_correct_exact): whenever the C semantics (Model/CSem.lean over Spec/CInt.lean, `none` = "
+             "undefined behaviour) gives the body a value v on arguments rho, the IL that the model of qbe.c's lowering "
+             "(Model/Lower.lean: emitFunc = funcexpr/convert/funcload/funcstore/funcjnz/phi construction) emits returns a "
+             "representation of v under the formal IL semantics (Spec/Qbe.lean) for every sufficiently large fuel, without "
+             "trapping, getting stuck, or producing output - for all such functions, all in-range arguments, both char "
+             "conventions, any block-counter start.  The theorem is tied to THIS compiler on every run: for generated F1 "
+             "functions (typed trees as expr.c builds them) the text cproc-qbe emits must be byte-identical to the model's, the "
+             "C semantics must agree with gcc and clang on sample arguments, and the real IL executed under Spec/Qbe must "
+             "return evalC's value.  Outside F1 (floats, pointers, aggregates, bit-fields, statements, loops, switch, goto, "
+             "calls, initialisers, VLAs) nothing is proved yet: there the check is translation validation - every program of "
+             "the typed generator gen/cprog.py is compiled by the freshly built cproc-qbe, its real IL is executed under the "
+             "formal IL semantics and the trace/exit status compared with gcc and clang (UBSan/ASan-clean, agreeing), for the "
+             "char conventions of all three targets."),
+    "design_ref": "DESIGN.md section 4, C01 and section 12.2",
+    "note": ("Trusted: Lean kernel + propext/Classical.choice/Quot.sound; Spec/Qbe.lean as the reading of the QBE IL reference "
+             "(QBE's own code generation is outside the sandbox); Model/CSem.lean + Spec/CInt.lean as the reading of C11 6.5 "
+             "(validated against gcc/clang on every run); gen/c01frag.py's transliteration of expr.c's typing, which the "
+             "byte-for-byte text comparison with the real compiler checks on every generated function; gcc/clang at -O0 as "
+             "the oracle outside F1.  Partial: the proof covers F1 only; the rest of the property's language is validated per "
+             "generated program, not proved."),
+    "technique": "Lean 4 proof of semantic preservation (simulation, induction on expressions) for the integer-expression fragment "
+                 "+ text-level correspondence with cproc-qbe + translation validation of generated programs under a formal IL semantics",
 }
